@@ -44,6 +44,8 @@ type Key struct {
 	Parses bool   // by construction
 	Type   string // by construction: what PublicKey.Type() must report
 	CertNT bool   // certificate carrying the no-touch-required extension
+	SK     bool   // security-key (FIDO) ed25519 key: signatures carry flags + counter
+	App    string // SK application string
 	// the key that signs for it (private half; for certificates the certified key)
 	ed  ed25519.PrivateKey
 	ec  *ecdsa.PrivateKey
@@ -97,6 +99,7 @@ func mkCert(pub ssh.PublicKey, ca ssh.Signer, ext map[string]string) []byte {
 //
 //	1,2 ed25519 · 3 ecdsa-p256 · 4 rsa-2048 · 5 ed25519 certificate (key 1, CA 2) · 6 rsa certificate (key 4, CA 2)
 //	7 unknown key type (does not parse) · 8 ed25519 blob with a 31-byte key (does not parse)
+//	9 sk-ssh-ed25519 · 10 certificate of key 9 with the no-touch-required extension · 11 certificate of key 9 without it
 func Init() {
 	keysOnce.Do(func() {
 		Keys = map[int]*Key{}
@@ -138,6 +141,16 @@ func Init() {
 		Keys[6] = &Key{ID: 6, Blob: mkCert(p4, ca, nil), Parses: true, Type: "ssh-rsa-cert-v01@openssh.com", rs: rs, pub: &rs.PublicKey}
 		Keys[7] = &Key{ID: 7, Blob: Str(SStr(nil, "foo"), []byte{1, 2, 3})}
 		Keys[8] = &Key{ID: 8, Blob: Str(SStr(nil, "ssh-ed25519"), make([]byte, 31))}
+		e3 := edKey(3)
+		skBlob := SStr(Str(SStr(nil, SKEd25519), e3.Public().(ed25519.PublicKey)), "ssh:")
+		Keys[9] = &Key{ID: 9, Blob: skBlob, Parses: true, Type: SKEd25519, SK: true, App: "ssh:", ed: e3, pub: e3.Public()}
+		p9, err := ssh.ParsePublicKey(skBlob)
+		if err != nil {
+			panic(err)
+		}
+		Keys[10] = &Key{ID: 10, Blob: mkCert(p9, ca, map[string]string{"no-touch-required": ""}), Parses: true, Type: SKEd25519Cert,
+			CertNT: true, SK: true, App: "ssh:", ed: e3, pub: e3.Public()}
+		Keys[11] = &Key{ID: 11, Blob: mkCert(p9, ca, nil), Parses: true, Type: SKEd25519Cert, SK: true, App: "ssh:", ed: e3, pub: e3.Public()}
 	})
 }
 
@@ -152,6 +165,35 @@ func KeyIDOf(blob []byte) string {
 }
 
 func itoa(i int) string { return hx.JoinInts([]int{i}) }
+
+const (
+	SKEd25519     = "sk-ssh-ed25519@openssh.com"
+	SKEd25519Cert = "sk-ssh-ed25519-cert-v01@openssh.com"
+)
+
+// skSigned is what a security key signs: SHA256(application) || flags || counter || SHA256(data).
+func skSigned(app string, flags byte, counter uint32, data []byte) []byte {
+	a := sha256.Sum256([]byte(app))
+	d := sha256.Sum256(data)
+	b := append(a[:], flags)
+	b = U32(b, counter)
+	return append(b, d[:]...)
+}
+
+// SKSign: the ed25519 signature a security key with these flags / counter produces.
+func SKSign(k *Key, flags byte, counter uint32, data []byte) []byte {
+	return ed25519.Sign(k.ed, skSigned(k.App, flags, counter, data))
+}
+
+// OracleVerifySK states validity of an sk-ssh-ed25519 signature with the stdlib: cryptographically
+// valid (noUP), and additionally asserting user presence (withUP).
+func OracleVerifySK(k *Key, format string, blob []byte, flags byte, counter uint32, data []byte) (withUP, noUP bool) {
+	if !k.SK || format != SKEd25519 || len(blob) != ed25519.SignatureSize {
+		return false, false
+	}
+	noUP = ed25519.Verify(k.pub.(ed25519.PublicKey), skSigned(k.App, flags, counter, data), blob)
+	return noUP && flags&1 != 0, noUP
+}
 
 // ---- signing
 
@@ -193,7 +235,7 @@ func SignBlob(k *Key, format string, data []byte) []byte {
 	}
 	var blob []byte
 	switch {
-	case k.ed != nil && format == "ssh-ed25519":
+	case k.ed != nil && !k.SK && format == "ssh-ed25519":
 		blob = ed25519.Sign(k.ed, data)
 	case k.ec != nil && format == "ecdsa-sha2-nistp256":
 		r, s, err := ecdsa.Sign(fixedRand{}, k.ec, digest(crypto.SHA256, data))
@@ -222,7 +264,7 @@ var verCache sync.Map
 // OracleVerify is the stdlib-only statement of "the signature (format, blob) by the holder of key k
 // over data is valid" (RFC 8332 / RFC 5656 / RFC 8709 formats). It does not touch the ssh package.
 func OracleVerify(k *Key, format string, blob, data []byte) bool {
-	if !k.Parses {
+	if !k.Parses || k.SK {
 		return false
 	}
 	ck := itoa(k.ID) + "|" + format + "|" + string(blob) + "|" + string(data)
@@ -274,4 +316,17 @@ func SignedData(session []byte, user, service, algo string, keyBlob []byte) []by
 	b = append(b, 1)
 	b = SStr(b, algo)
 	return Str(b, keyBlob)
+}
+
+// CryptoSigner returns the private key (for certificates: the certified key's private key).
+func (k *Key) CryptoSigner() crypto.Signer {
+	switch {
+	case k.ed != nil:
+		return k.ed
+	case k.ec != nil:
+		return k.ec
+	case k.rs != nil:
+		return k.rs
+	}
+	return nil
 }
